@@ -4,7 +4,7 @@
 From Coq Require Import ZArith Reals List Bool.
 From Rubato.Model Require Import Num Reals Base Async Resamplers.
 From Rubato.Gen Require Import FastGen.
-From Rubato.Proofs Require Import MalformedP FastInR FastOutR FastCtorR SincInR.
+From Rubato.Proofs Require Import MalformedP FastInR FastOutR FastCtorR SincInR SincOutR.
 From Rubato.Gen Require Import SincGen.
 Import ListNotations.
 Local Open Scope R_scope.
@@ -49,6 +49,12 @@ Theorem C07_sinc_in_bound_R : forall env ops (s s' : @astate CR SR (@SincFixedIn
   Rabs (IZR nout - sratio s * IZR nin) <= sratio s * (IZR (sL s) + / sratio s + 3) + 3.
 Proof. exact si_accounting_const_R. Qed.
 
+(** SincFixedOut, any set_chunk_size schedule: |nout - r*nin| <= r*(sinc_len + 1) *)
+Theorem C07_sinc_out_bound_R : forall env blen ops (s s' : @astate CR SR (@SincFixedOut CR)) nin nout,
+  so_wf env blen s -> (forall n, In (OChunk n) ops -> (0 <= n)%Z) -> so_run env s ops = Ok (s', nin, nout) ->
+  Rabs (IZR nout - uratio s * IZR nin) <= uratio s * (IZR (uL s) + 1).
+Proof. exact so_accounting_const_R. Qed.
+
 (** The hypotheses are met by every constructed resampler. *)
 Theorem C07_ctor_fast_in_R : forall ratio maxrel d chunk nch s, (1 <= chunk)%Z -> (0 <= nch)%Z ->
   @fast_in_new CR SR ratio maxrel d chunk nch = inr (RFastIn d s) -> fi_wf s /\ ratio = FastInR.ratio s.
@@ -64,3 +70,4 @@ Print Assumptions C07_fast_in_bound_R.
 Print Assumptions C07_fast_out_bound_R.
 Print Assumptions C07_ctor_fast_out_R.
 Print Assumptions C07_sinc_in_bound_R.
+Print Assumptions C07_sinc_out_bound_R.
